@@ -54,15 +54,24 @@ Proof.
     + destruct k as [|k]; cbn [vadd vmap2 nth]; [numR; lra|]. apply IH; lia.
 Qed.
 
-(* the code as it stands accepts offsets outside 0 .. |n_out - n| (Python slice wrap-around /
-   NumPy length-1 broadcasting) -- finding offset-out-of-range-accepted *)
-Lemma offset_range_refuted :
-  (offset_ok 1 4 (-3) = false /\ resize1 PConstant Forward 0 true [5] 4 (-3) = Ok [0; 5; 0; 0]) /\
-  (offset_ok 5 2 4 = false /\ resize1 PConstant Forward 0 true [1; 2; 3; 4; 5] 2 4 = Ok [5; 5]).
+(* offsets outside 0 .. |n_out - n| are rejected whatever the mode, direction and contents
+   (the validation loop regenerated into Gen.Padding.offset_invalid); was finding
+   offset-out-of-range-accepted, repaired in /repo by 675e308 *)
+Lemma offset_invalid_iff n n_out off :
+  offset_invalid (Z.of_nat n) (Z.of_nat n_out) off = negb (Nat.eqb n n_out) && negb (offset_ok n n_out off).
 Proof.
-  split; (split; [reflexivity|]).
-  - unfold resize1. cbn [pmode_eqb negb andb is_fwd length Nat.ltb Nat.leb padding_applies]. numR.
-    rewrite Reqb_refl. cbn [negb]. reflexivity.
-  - unfold resize1. cbn [pmode_eqb negb andb is_fwd length Nat.ltb Nat.leb padding_applies]. numR.
-    rewrite Reqb_refl. cbn [negb]. reflexivity.
+  unfold offset_invalid, offset_ok.
+  destruct (Z.eqb_spec (Z.of_nat n) (Z.of_nat n_out)) as [E|E]; destruct (Nat.eqb_spec n n_out) as [E'|E']; try lia;
+    cbn [negb andb]; try reflexivity.
+  f_equal. destruct (Z.leb_spec 0 off); cbn [andb]; [|reflexivity].
+  destruct (Z.leb_spec off (Z.abs (Z.of_nat n_out - Z.of_nat n)));
+    destruct (Z.leb_spec (off + Z.of_nat (Nat.min n n_out)) (Z.of_nat (Nat.max n n_out))); try reflexivity; lia.
+Qed.
+
+Lemma offset_out_of_range_rejected m d (c : R) cast (arr : list R) n_out off :
+  length arr <> n_out -> offset_ok (length arr) n_out off = false ->
+  resize1 m d c cast arr n_out off = ValueErr.
+Proof.
+  intros Hne Hoff. unfold resize1. rewrite offset_invalid_iff, Hoff.
+  destruct (Nat.eqb_spec (length arr) n_out); [contradiction|]. reflexivity.
 Qed.
